@@ -369,6 +369,230 @@ def _scale(ctx, seen):
                 sizes["linear"][-1], KNEEDLE_STEP, near_tie))
 
 
+# ------------------------------------------------------------------------------------------------------------------
+# X: small exact elbows (20 .. 80 points) TRANSLATED IN X by an exact power of two, one arm of minimal length.  Same compact
+#    description as the scale family plus "xoff"; admitted and judged by TLC (Trace_ElbowScaleShift = Trace_ElbowScale after
+#    moving the samples back by xoff).  Far from the origin a comparison of abscissae with a RELATIVE tolerance, a product
+#    m*x or a Vandermonde column loses the short arm; the exact answer does not move (the property's curve is translated).
+XS_OFFSETS = [2 ** 20, 2 ** 24, 2 ** 27, 2 ** 30]
+XS_PAIRS = [(4, -2), (-2, 4), (4, 2), (-4, 2), (2, -4), (12, -6), (4, 6)]          # 1/2 and -1/4 and relatives: dyadic, not integral
+XS_EPS = 2.0 ** -52
+
+
+def _xs_build(cv):
+    P = _scale_build(cv)
+    P[:, 0] += float(cv["xoff"])                          # integers below 2^31: exact
+    return np.ascontiguousarray(P)
+
+
+def _xs_rss(x, y8, p, q, fit):
+    """exact residual sum of squares (as a float, relative error ~1e-16) of the end-point / least-squares line of the points
+    p..q of the UNTRANSLATED curve (python / int64 integers only; heights in eighths, relative to the first point)"""
+    xs = x[p:q + 1] - x[p]
+    ys = y8[p:q + 1] - y8[p]
+    if fit == "pointfit":
+        DX, DY = int(xs[-1]), int(ys[-1])
+        num = ys * DX - DY * xs                            # |.| < 10^8: squares and their sum are exact in int64
+        return float(fractions.Fraction(int(np.sum(num * num)), DX * DX * 64))
+    N, sx, sy = len(xs), int(xs.sum()), int(ys.sum())
+    sxx, sxy, syy = int((xs * xs).sum()), int((xs * ys).sum()), int((ys * ys).sum())
+    Sxx, Sxy, Syy = N * sxx - sx * sx, N * sxy - sx * sy, N * syy - sy * sy
+    return float(fractions.Fraction(Syy * Sxx - Sxy * Sxy, Sxx * N * 64))
+
+
+def _xs_pinned(x, y8, a, fit, cost, noise):
+    """Is the arg-min of the L-method cost over the splits 2 .. len-3 of this (sub-)curve decided beyond rounding noise?
+    `noise` bounds |computed sqrt(RSS) - exact sqrt(RSS)| of one fitted arm.  The exact cost is 0 at the corner; a split i
+    is certainly costlier than the corner when the cost of (sqrt(RSS) - noise) exceeds 4 x the cost of (noise, noise)."""
+    m = len(x)
+    if not 2 <= a <= m - 3:
+        return False
+    length = float(x[-1] - x[0])
+
+    def c(i, sl, sr):
+        lr, rr = float(x[i] - x[0]) / length, float(x[-1] - x[i]) / length
+        if cost == "rmse":
+            return lr * (sl * sl * lr) ** 0.5 + rr * (rr * sr * sr) ** 0.5
+        return sl * sl * lr + sr * sr * rr
+    top = 4.0 * c(a, noise, noise) * (1 + 1e-9)
+    for i in range(2, m - 2):
+        if i == a:
+            continue
+        sl, sr = _xs_rss(x, y8, 0, i, fit) ** 0.5, _xs_rss(x, y8, i, m - 1, fit) ** 0.5
+        if not c(i, max(0.0, sl - noise), max(0.0, sr - noise)) * (1 - 1e-9) > top:
+            return False
+    return True
+
+
+def _xs_calls(cv, P):
+    import kneeliverse.curvature as cu
+    import kneeliverse.dfdt as df
+    import kneeliverse.menger as me
+    import kneeliverse.lmethod as lm
+    import kneeliverse.kneedle as kn
+    a, n = cv["a"], len(P)
+    integral = cv["s1"] % 8 == 0 and cv["s2"] % 8 == 0 and cv["off8"] % 8 == 0
+    mono = _scale_mono(cv)
+    calls, skipped = [("curvature", cu.knee, (P,)), ("dfdt", df.knee, (P,)), ("menger", me.knee, (P,))], []
+    P0 = _scale_build(cv)
+    pinned = mono and _kneedle_pinned(cv, P0)              # Kneedle normalises x - min(x): the translation cancels exactly
+    if pinned:
+        calls.append(("kneedle(t=0)", kn.knee, (P, 0)))
+    elif mono:
+        skipped.append("kneedle(t=0)")
+    x = np.round(P0[:, 0]).astype(np.int64)
+    y8 = np.round(P0[:, 1] * 8).astype(np.int64)
+    big = 8.0 * float(P[-1, 0]) + float(np.abs(P[:, 1]).max())       # |m| x + |b|: what one evaluated ordinate is made of
+    noise = {"pointfit": 8 * n ** 0.5 * XS_EPS * big, "bestfit": 64 * n ** 0.5 * XS_EPS * big}
+    # the (sub-)curves lmethod.knee scans when every scan answers the corner: whole curve, then x[0:cutoff+1]
+    cut = {"none": None, "adjusted": max(10, int((a + n) / 2.0)), "original": max(10, min(2 * a, n))}
+    memo = {}
+
+    def pin(fit, cost, upto):
+        m = n if upto is None else min(n, upto + 1)
+        key = (fit, cost, m)
+        if key not in memo:
+            memo[key] = _xs_pinned(x[:m], y8[:m], a, fit, cost, noise[fit])
+        return memo[key]
+    PI = P.astype(np.int64) if integral else None
+    for f in lm.Fit:
+        for r in lm.Refinement:
+            name = "lmethod.knee(%s,%s)" % (f, r)
+            if pin(str(f), "rmse", None) and pin(str(f), "rmse", cut[str(r)]):
+                calls.append((name, lm.knee, (P, f, r)))
+                if integral and (str(f) == "pointfit" or str(r) == "none"):
+                    calls.append((name + "[int64]", lm.knee, (PI, f, r)))
+            else:
+                skipped.append(name)
+        for c in lm.Cost:
+            name = "lmethod.get_knee(%s,%s)" % (f, c)
+            if pin(str(f), str(c), None):
+                calls.append((name, lm.get_knee, (P[:, 0], P[:, 1], f, c)))
+            else:
+                skipped.append(name)
+    if integral:
+        calls += [("curvature[int64]", cu.knee, (PI,)), ("dfdt[int64]", df.knee, (PI,)), ("menger[int64]", me.knee, (PI,))]
+        if pinned:
+            calls.append(("kneedle(t=0)[int64]", kn.knee, (PI, 0)))
+    return calls, skipped
+
+
+def _xs_item(cv):
+    P = _xs_build(cv)
+    P0 = _scale_build(cv)
+    n = len(P)
+    out = {"answers": [], "bad": [], "skipped": [], "samples": [],
+           "member": bool(_scale_member(cv, P0) and np.array_equal(P[:, 0] - float(cv["xoff"]), P0[:, 0])
+                          and np.array_equal(P[:, 1], P0[:, 1]) and np.all(np.diff(P[:, 0]) >= 1))}
+    if not out["member"]:
+        return out
+    calls, out["skipped"] = _xs_calls(cv, P)
+    for name, fn, args in calls:
+        o, v, _ = monitor.call(fn, args, budget=monitor.quad(n, 8) + 50000, wall=60)
+        if o != "returned":
+            out["bad"].append(("terminates" if o in ("budget", "watchdog") else "returns", {"detector": name, "outcome": o, "error": v}))
+            continue
+        if isinstance(v, tuple):
+            v = v[0]
+        try:
+            got = -1 if v is None else int(v)
+        except Exception:
+            out["bad"].append(("returns", {"detector": name, "outcome": "returned a non-index", "error": repr(v)[:80]}))
+            continue
+        out["answers"].append([name, got if 0 <= got < n else -1 if got < 0 else n])
+    want = {0, cv["a"] - 1, cv["a"], cv["a"] + 1, n - 1, n // 3, (2 * n) // 3}
+    for _, got in out["answers"]:
+        want |= {k for k in (got - 1, got, got + 1) if 0 <= k < n}
+    out["samples"] = [[k, int(P[k, 0]), int(round(P[k, 1] * 8))] for k in sorted(want)]
+    return out
+
+
+def _xs_curve(rng, xoff, k):
+    n = rng.randint(20, 80)
+    m = n - 1
+    short = rng.choice([3, 3, 4, 4, 5]) if k % 6 else rng.randint(6, m // 2)       # mostly an arm of minimal length
+    side = "right" if k % 2 == 0 else "left"
+    a = m - short if side == "right" else short
+    pool = rng.choice([XS_PAIRS, XS_PAIRS, NEAR, SHARP, VEE, FLAT, None])
+    pair = rng.choice(pool) if pool else tuple(rng.sample(range(-64, 65), 2))
+    longp = list(rng.choice([[1], [2], [1], [2], [1, 2], [4], [2, 1, 1], [1, 3], [1, 2, 3, 4], [4, 4, 4, 1]]))
+    shortp = list(rng.choice([[1], [1], [1], [2], [2], [1, 2], [3], [4, 1, 1]]))
+    pats = (longp, shortp) if side == "right" else (shortp, longp)
+    return {"a": a, "b": m - a, "s1": pair[0], "s2": pair[1], "off8": rng.choice([0, 8 * 4096, 8 * 4096, 4, 8 * 17, 1, 8 * 1024]),
+            "pat1": pats[0], "pat2": pats[1], "xoff": xoff}
+
+
+def _xs_case(cv, res):
+    c = {k: cv[k] for k in ("a", "b", "s1", "s2", "off8", "pat1", "pat2", "xoff")}
+    c.update(id=cv["id"], mono=_scale_mono(cv), samples=res["samples"],
+             answers=[{"d": d, "got": g, "mono_only": d.startswith("kneedle")} for d, g in res["answers"]])
+    return c
+
+
+def _xs_selftests():
+    cv = {"id": "st", "a": 5, "b": 3, "s1": 4, "s2": -2, "off8": 32768, "pat1": [2, 1], "pat2": [1], "xoff": 2 ** 30}
+    P = _xs_build(cv)
+    smp = [[k, int(P[k, 0]), int(round(P[k, 1] * 8))] for k in range(len(P))]
+    ok = _xs_case(cv, {"samples": smp, "answers": [["lmethod.knee(pointfit,none)", 5], ["curvature", 5]]})
+    wrong = dict(ok, answers=[{"d": "lmethod.knee(pointfit,none)", "got": 4, "mono_only": False}])
+    stay = dict(ok, samples=[[k, x - 2 ** 30, y] for k, x, y in smp])
+    odd = dict(ok, xoff=300000, samples=[[k, x - 2 ** 30 + 300000, y] for k, x, y in smp])
+    moved = dict(ok, samples=[s if s[0] != 7 else [7, s[1] + 1, s[2]] for s in smp])
+    return [(ok, "ok"), (wrong, "corner"), (stay, "sample-mismatch"), (odd, "not-in-family"), (moved, "sample-mismatch"),
+            (dict(ok, b=2), "not-in-family"), (dict(ok, mono=True), "mono-flag")]
+
+
+def _xshift(ctx, seen):
+    rng = ctx.rng
+    per = 40 if ctx.quick else 400
+    cvs = []
+    for xoff in XS_OFFSETS:
+        for k in range(per):
+            cvs.append(_xs_curve(rng, xoff, k))
+    for k, cv in enumerate(cvs):
+        cv["id"] = "X%d" % k
+    res = par.pmap(_xs_item, cvs)
+    outside = [cv["id"] for cv, r in zip(cvs, res) if not r["member"]]
+    if outside:
+        raise RuntimeError("harness built an x-translated curve outside the elbow family: %s" % outside[:3])
+    rej = ctx.trace("Trace_ElbowScaleShift", [_xs_case(cv, r) for cv, r in zip(cvs, res) if r["answers"]],
+                    selftest=_xs_selftests(), chunk=400)
+    byid = {cv["id"]: cv for cv in cvs}
+    calls, skipped = {}, {}
+    for cv, r in zip(cvs, res):
+        ctx.count(("X", {k: v for k, v in cv.items() if k != "id"}), True)
+        for d, _ in r["answers"]:
+            calls[d.split("(")[0]] = calls.get(d.split("(")[0], 0) + 1
+        for d in r["skipped"]:
+            skipped[d.split("(")[0]] = skipped.get(d.split("(")[0], 0) + 1
+        for clause, detail in r["bad"]:
+            key = (clause, detail.get("detector"))
+            seen[key] = seen.get(key, 0) + 1
+            if seen[key] <= 2:
+                ctx.violation(clause, {"xshift": dict(cv)}, detail, match="%s:%s" % key)
+    for cid, verdicts in sorted(rej.items(), key=lambda kv: int(kv[0][1:])):
+        cv = byid[cid]
+        for v in verdicts:
+            if v[0] != "corner":
+                raise RuntimeError("Trace_ElbowScaleShift did not admit a harness-built case %s: %s" % (cid, v))
+            d, got = v[1], v[2]
+            clause = "corner(%s)" % d.split("(")[0].split(".")[0]
+            key = (clause, d)
+            seen[key] = seen.get(key, 0) + 1
+            if seen[key] <= 2:
+                ctx.violation(clause, {"xshift": dict(cv)},
+                              {"detector": d, "got": None if got < 0 else got, "corner": cv["a"], "points": cv["a"] + cv["b"] + 1,
+                               "x_offset": cv["xoff"]}, match="%s:%s" % key)
+    far = [(cv, r) for cv, r in zip(cvs, res) if cv["xoff"] == XS_OFFSETS[-1] and min(cv["a"], cv["b"]) == 3][0]
+    ctx.sample({"binding": "T (x-translated)", "elbow": far[0], "answers": far[1]["answers"]})
+    ctx.extra["x_translated"] = {"offsets": XS_OFFSETS, "curves": len(cvs), "points": [20, 80],
+                                 "minimal_arm_3_or_4": sum(1 for cv in cvs if min(cv["a"], cv["b"]) <= 4),
+                                 "replays_by_detector": calls, "near_tie_not_judged": skipped}
+    ctx.note("x-translated elbows: an L-method option is judged only when, in exact arithmetic, every other split of every "
+             "(sub-)curve it scans costs more than 4x the cost that rounding noise alone (8 sqrt(n) eps (8 x_max + y_max) per arm for "
+             "the end-point fit, 64 sqrt(n) eps (..) for polyfit) can give the corner split; not judged here: %s.  float32 is left "
+             "out (2^24 + 1 is not representable)" % (skipped or "none"))
+
 
 def run(ctx):
     ctx.rule = ("G: arms 3..4 (thorough 3..6) x spacing patterns over {1,2,3,4} x slope pairs covering every orientation class "
@@ -379,7 +603,10 @@ def run(ctx):
                 "four fifths, 3..9 segments from either end and on block seams; faint steep, sharp, V and flat-arm slope pairs; tiled "
                 "spacing patterns; float64 and int64) through curvature, DFDT, Menger, Kneedle t=0 (monotone) and, on sizes its "
                 "quadratic cost allows, every L-method option, admitted and judged by TLC (Trace_ElbowScale) from the compact "
-                "description, sparse samples of the replayed array and the answers")
+                "description, sparse samples of the replayed array and the answers.  "
+                "X (x-translated): elbows of 20 .. 80 points with an arm of 3, 4 or 5 segments on either side (spacings 1..4), translated "
+                "in x by 2^20, 2^24, 2^27 and 2^30 (exact), float64 and int64, through every detector and every L-method fit x "
+                "refinement / fit x cost whose decision is beyond rounding noise, admitted and judged by TLC (Trace_ElbowScaleShift)")
     ctx.assumptions += ["heights are multiples of 1/8 and offsets dyadic, so every curve is exactly representable in binary64",
                         "L-method refinement is run with its default limit (10); the limit is not one of the property's options",
                         "uts (gradient, isodata, ema, peak detection) is trusted",
@@ -418,6 +645,8 @@ def run(ctx):
                               match="%s:%s" % (clause, detail.get("detector")))
     # ---- S: production-size elbows, admitted and judged by TLC from their compact description
     _scale(ctx, seen)
+    # ---- X: small exact elbows far from the origin on the x axis (exact powers of two), arms of minimal length
+    _xshift(ctx, seen)
     ctx.extra["mismatches_by_detector"] = {"%s/%s" % k: v for k, v in seen.items()}
     # ---- growth beyond C03: Kneedle without smoothing on ALL small integer curves (notes only)
     growth.safe(ctx, growth.kneedle)
@@ -425,6 +654,18 @@ def run(ctx):
 
 def replay(ctx, obj):
     c = obj["case"]
+    if "xshift" in c:
+        cv, r = c["xshift"], _xs_item(c["xshift"])
+        if not r["member"]:
+            raise RuntimeError("replay file does not describe a member of the elbow family")
+        for clause, detail in r["bad"]:
+            ctx.violation(clause, c, detail)
+        for d, got in r["answers"]:
+            if got != cv["a"]:
+                ctx.violation("corner(%s)" % d.split("(")[0].split(".")[0], c,
+                              {"detector": d, "got": None if got < 0 else got, "corner": cv["a"], "points": cv["a"] + cv["b"] + 1,
+                               "x_offset": cv["xoff"]})
+        return
     if "scale" in c:
         cv, r = c["scale"], _scale_item((c["scale"], c["group"]))
         if not r["member"]:
